@@ -532,6 +532,14 @@ class InvGross(Inv):
                     yield dict(v, j=j, newval=5, newnan=False)
             else:
                 yield v
+        if self.params["tr"] == "shift":
+            # dyadic values a hair outside / inside the bounds, shifted far (all shifts exact in float64): a
+            # comparison that forgives a relative error of the bound depends on the absolute level
+            xs = [-1 / 256, 16 + 1 / 256, 4 - 1 / 512, 12 + 1 / 512, 0, 16, 4, 12, 1 / 1024, None]
+            for c in (1024, -4096, 2**20, -(2**30)):
+                for i in range(0, len(xs), 5):
+                    part = xs[i : i + 5]
+                    yield {"n": len(part), "x": part, "f0": 0, "f1": 16, "s0": 4, "s1": 12, "c": c, "keep": 1}
 
 
 class InvValid(Inv):
